@@ -23,9 +23,9 @@ REAL_OK = {"a", "u", "k", "ra", "ru", "rk", "r9", "ry"}   # may be made by the R
 
 # deviations of the code from the statement: signature -> deviation constant of VcLife.tla
 EXPECTED = {
-    ("stored-invalid", "malformed"): "ValidateOnStore",
-    ("stored-invalid", "foreign-id"): "ValidateOnStore",
-    ("valid-not-stored", "blocked-by-foreign-id"): "ValidateOnStore",
+    # ValidateOnStore is TRUE since the repair of X07-stored-malformed / -foreign-id / -squatter-blocks-genuine in /repo
+    # (vcr.StoreCredential runs the type validator): "stored-invalid" malformed / foreign-id and "valid-not-stored"
+    # blocked-by-foreign-id are ordinary violations again
     ("transient-failure-dropped", "fault"): "TransientRetried",
     # UnknownKeyRetried and ContextErrorsSeen are TRUE since the repairs f131123 / 7b63384 in /repo: their signatures
     # ("transient-failure-dropped" nokey / ctxdown) are ordinary violations again
@@ -128,7 +128,7 @@ def directed_scripts():
     out.append(dict(id="d-late-key", steps=[D("k"), D("rk"), dict(a="LearnKey", i="I3"), dict(a="Trust", i="I3"), dict(a="Restart"), dict(a="Replay", t="k"), dict(a="Replay", t="rk")]))
     out.append(dict(id="d-late-key-reprocess", steps=[D("rk"), D("k"), dict(a="LearnKey", i="I3"), dict(a="Reprocess", t="k"), dict(a="Reprocess", t="rk"), dict(a="Trust", i="I3")]))
     # squatter first, then the genuine credential and its revocation
-    out.append(dict(id="d-squat-first", steps=[D("q"), D("a"), D("ra"), dict(a="Restart"), dict(a="Replay", t="a"), dict(a="Trust", i="I2")]))
+    out.append(dict(id="d-squat-first", steps=[D("q"), D("a"), D("ra"), dict(a="Restart"), dict(a="Replay", t="q"), dict(a="Trust", i="I2")]))
     out.append(dict(id="d-genuine-first", steps=[D("a"), D("q"), D("m"), D("rf"), dict(a="Restart")]))
     # store faults and the flaky context
     out.append(dict(id="d-fault-cred", steps=[D("a", f=True), D("ra"), dict(a="Restart"), dict(a="Replay", t="a")]))
